@@ -26,14 +26,14 @@ def run(tier, rep):
             tails = ['', '\n', ' x', '//\tx\n;']
             n = 2
             bigs = [4096]
-        files = c05.scan_files(sc, ref, [(0, 0)], scanPadN=n, scanPads=pads, scanTails=tails, scanBigs=bigs, scanLayN=(2 if thorough else 1))
+        files = c05.scan_files(sc, ref, [(0, 0)], scanPadN=n, scanPads=pads, scanTails=tails, scanBigs=bigs, scanLayN=1)
         cfg = c05.base_cfg(files, 'harnessScanPadded', tier, concretize=[c05.PKG + '.advanceDFA'], max_steps=60000000)
         res = run_gosym(cfg, sc, 'pad', timeout=6 * 3600)
         merge_gosym(rep, res, 'padded scan: %d paddings x %d tails x every text of 1..%d bytes (0x01..0x7F) through lexer.New/NextToken/reader vs reference stream' % (len(pads), len(tails), n))
         handle(rep, res, files, sc)
         cfg = c05.base_cfg(files, 'harnessScanLayout', tier, concretize=[c05.PKG + '.advanceDFA'], max_steps=200000000)
         res = run_gosym(cfg, sc, 'layout', timeout=6 * 3600)
-        merge_gosym(rep, res, 'one giant skipped element (spaces / tabs / blank lines / block comment / line comment / comments with tabs) of %s bytes x %d tails x every text of 0..%d bytes' % (bigs, len(tails), 2 if thorough else 1))
+        merge_gosym(rep, res, 'one giant skipped element (spaces / tabs / blank lines / block comment / line comment / comments with tabs) of %s bytes x %d tails x every text of 0..%d bytes' % (bigs, len(tails), 1))
         handle(rep, res, files, sc)
         rep.coverage['paddings'] = pads
         rep.coverage['tails'] = tails
